@@ -291,6 +291,24 @@ def check_network(cid, d_real_entry):
                 for (i, j), dx in jl: mag[i] = mag[i] + np.array([x if lf.evaluate(x, {}) >= 0 else -x for x in dx], dtype=object) * (sqrtrho[i] * spec_rate(i, t))
             return tol_same(bias, np.vectorize(lambda x: dom.const(0), otypes=[object])(bias), extra_scale=(mag,))
         ob('C02:bias-vanishes(no vector basis)(tol)', bias_zero)
+    # ---- C03: symmetry in the Cartesian indices and invariance under the point group, for every value of the prefactors and energies
+    ob('C03:uncorrelated-part-symmetric', lambda: lf.all_same(D0, D0.T))
+    rots = []
+    for gop in c.G:
+        if not any(np.allclose(gop.cartrot, r) for r in rots): rots.append(gop.cartrot)
+    def invariant(Tn):
+        for r in rots:
+            R = lf.lift(dom, r)
+            if not tol_same(np.dot(R, np.dot(Tn, R.T)), Tn): return False, 'not invariant under the rotation %s' % np.round(r, 4).tolist()
+        return True
+    ob('C03:uncorrelated-part-invariant-under-the-point-group(tol)', lambda: invariant(D0))
+    if not stop:
+        D, Db = res0
+        ob('C03:D-symmetric(tol)', lambda: tol_same(D, D.T))
+        ob('C03:D-invariant-under-the-point-group(tol)', lambda: invariant(D))
+        Dbe = np.vectorize(eliminate_roots, otypes=[object])(Db)
+        ob('C03:barrier-output-symmetric(tol)', lambda: tol_same(Dbe, Dbe.T))
+        ob('C03:barrier-output-invariant-under-the-point-group(tol)', lambda: invariant(Dbe))
     if not stop:
         D, Db = res0
         def deriv():
@@ -326,6 +344,10 @@ def numeric_replay(name, entry, seed=0):
                 D2, Db2 = d.diffusivity(*inp, CalcDeriv=True)
                 r = max(rel(D2, f * D), rel(Db2, f * Db))
                 return r > 1e-9, 'numeric code at %r: relative change under %s = %.3e' % (point, vn, r)
+    if name.startswith('C03:'):
+        Tn = Db if 'barrier' in name else D
+        r = rel(Tn, Tn.T) if 'symmetric' in name else max(rel(g.cartrot @ Tn @ g.cartrot.T, Tn) for g in c.G)
+        return r > 1e-9, 'numeric code at %r: relative residual %.3e' % (point, r)
     if name.startswith('C11:'):
         h = 1e-4
         f_ = lambda b: d.diffusivity(pre, b * be, preT, b * beT)
